@@ -8,6 +8,8 @@ import (
 	"time"
 
 	netty "github.com/go-netty/go-netty"
+
+	"verif/harness/mock"
 )
 
 // With VERIF_NOSLEEP=1 (clock-redirected build only) the 100 ms sleep of Close's poll loop takes no time:
@@ -38,5 +40,6 @@ func init() {
 		netty.VerifSetClock(noSleepClock{})
 		virtSlept = func() time.Duration { return time.Duration(atomic.LoadInt64(&noSleepSlept)) }
 		virtSleptReset = func() { atomic.StoreInt64(&noSleepSlept, 0) }
+		mock.NowFunc = func() time.Time { return time.Now().Add(time.Duration(atomic.LoadInt64(&noSleepSlept))) }
 	}
 }
